@@ -171,6 +171,15 @@ func recordFailure(prop string, c any, f *Failure) {
 	_ = os.WriteFile(filepath.Join(dir, prop+".json"), b, 0o644)
 }
 
+func recordFailureTo(path, prop string, c any, f *Failure) {
+	if path == "" {
+		return
+	}
+	raw, _ := json.Marshal(c)
+	b, _ := json.MarshalIndent(replayFile{Property: prop, Message: f.Msg, Site: f.Site, Case: raw}, "", " ")
+	_ = os.WriteFile(path, b, 0o644)
+}
+
 // replayFns maps a property id to a function that decodes a case and checks it.
 var replayFns = map[string]func(raw json.RawMessage) *Failure{}
 
@@ -329,3 +338,5 @@ func TestMain(m *testing.M) {
 func sortStrings(l []string) { sort.Strings(l) }
 
 func simpleFold(r rune) rune { return unicode.SimpleFold(r) }
+
+func jsonMarshal(v any) ([]byte, error) { return json.Marshal(v) }
